@@ -12,7 +12,7 @@ Stages
   mock     a harness-side ScatteringTheory (the documented extension point) whose field is a polynomial of the
            position it is handed: the WHOLE image-formation model (flatten order, k*(x-c) with inverted z,
            phase exp(-i k z_c), superposition over components, un-flatten) is executed in Coq and compared.
-  history  4-8 requests in 3 random orders with repeats inside one interpreter + a fresh interpreter running
+  history  8-10 requests in 3 random orders with repeats inside one interpreter + a fresh interpreter running
            another order (thorough: + every request alone in its own interpreter): outputs bit-for-bit.
 """
 import hashlib
@@ -641,8 +641,8 @@ def check_real(ctx, specs, tag, sample=False):
             ctx.count("real:refused:" + "/".join(kinds))
             if have_all or kinds != ["MissingParameter"] or len(errs) != 4:
                 # a refusal of a request that carries all optics (or only some entry points refusing) is not expected
-                ctx.violation("refused:%s:%s" % (fam, "/".join(kinds)),
-                              "request with complete optics refused: %s" % errs, dict(kind="real", spec=spec, errors={w: list(r) for w, r in errs.items()}))
+                ctx.violation("refused:%s" % "/".join(kinds),
+                              "request with complete optics refused (%s): %s" % (fam, errs), dict(kind="real", spec=spec, errors={w: list(r) for w, r in errs.items()}))
             continue
         det = out["det"]
         ok = True
@@ -661,7 +661,7 @@ def check_real(ctx, specs, tag, sample=False):
             h0 = m["h0"]
             axis = (m["p3"][0] == 0 or m["p3"][1] == 0)
             if not (np.all(h0 == h0[0]) and abs(h0[0] - 1.0) <= 1e-15 and (not axis or h0[0] == 1.0)):
-                ctx.violation("scaling0:" + fam, "hologram with scaling 0 is not 1 on every pixel",
+                ctx.violation("scaling0", "hologram with scaling 0 is not 1 on every pixel (%s)" % fam,
                               dict(kind="real", spec=spec, chan=m["chan"], values=[float(x) for x in h0[:20]]))
             if float(np.ptp(m["h"])) > 1e-6 and m["alpha"] != 0:
                 ctx.nontriv((tag, spec["id"], m["chan"]))
@@ -798,8 +798,8 @@ def gen_history_set(rng, n):
             ("multisphere", gen_spheres(rng, 2), False), ("mie", big, False), ("mie", small, False),
             ("layered", gen_sphere(rng, layered=True), False), ("mie_sup", gen_spheres(rng, 2), False),
             ("mielens", gen_sphere(rng), False), ("lens_mie", gen_sphere(rng), False), ("lens_tm", gen_tm_scatterer(rng), True)]
-    must = fams[:4]
-    rest = fams[4:]
+    must = fams[:6]
+    rest = fams[6:]
     rng.shuffle(rest)
     chosen = (must + rest)[:n]
     specs = []
@@ -899,7 +899,7 @@ def find_culprit(specs, j):
 def stage_history(ctx):
     rng = ctx.subrng("history")
     for s in range(ctx.n(1, 3)):
-        specs = gen_history_set(rng, ctx.n(6, 8))
+        specs = gen_history_set(rng, ctx.n(8, 10))
         check_history(ctx, specs, "h%d" % s, perms=3, alone=(ctx.tier == "thorough" and s == 0))
 
 
